@@ -7,10 +7,11 @@
 (*               = ((Y + a) / b) ^ (p / q)     above it                    *)
 (* (x linear light, Y the encoded value, p/q the published exponent as a   *)
 (* fraction), so "x = g(Y)" above the knee is  x^q = ((Y + a)/b)^p  - a    *)
-(* statement about INTEGER powers of rationals.  All other statements      *)
-(* (x lies on the curve within a tolerance, the error of an integer code   *)
-(* is below 0.6) are bracketings  g(Ylo) <= x <= g(Yhi)  because g is       *)
-(* increasing, and each side is decided by comparing two integer powers.   *)
+(* statement about INTEGER powers of rationals.  "The error of an integer  *)
+(* code is below 0.6" is a bracketing  g(Ylo) < x < g(Yhi)  (g increases), *)
+(* each side decided by comparing two integer powers; "x lies on the curve *)
+(* within a tolerance on Y" is  |U^p - x^q| <= kappa U^p  with U = (Y+a)/b  *)
+(* and kappa the tolerance carried to the p-th power.                      *)
 (*                                                                         *)
 (* Integer powers are evaluated in truncated big-float arithmetic (`Bf`,   *)
 (* 79+ significant bits, every product rounded DOWN, relative error per    *)
@@ -41,52 +42,70 @@ EXTENDS Fx
 -----------------------------------------------------------------------------
 (* truncated big floats: <<M, q>> denotes M * 8192^q, M a BigNat of at most PL limbs.  Values of at most
    PL limbs are exact; longer products keep their top PL limbs (rounded down, relative error < 8192^-(PL-1) = 2^-78).
-   (PL = 7 rather than more: one 7x7-limb product costs TLC about a millisecond, and a check needs up to 40.) *)
+   (PL = 7 rather than more: one 7x7-limb product costs TLC about a millisecond, and a check needs up to 40.)
+   The magnitude <<d[3], d[2]>> of a Dy is a Bf as it stands. *)
 PL == 7
 BfZero == <<<<>>, 0>>
 BfTrunc(M, q) == IF Len(M) <= PL THEN <<M, q>> ELSE <<SubSeq(M, Len(M) - PL + 1, Len(M)), q + (Len(M) - PL)>>
 BfNat(M) == BfTrunc(M, 0)
+BfOfDy(d) == BfTrunc(d[3], d[2])
 BfMul(a, b) == IF a[1] = <<>> \/ b[1] = <<>> THEN BfZero ELSE BfTrunc(Mul(a[1], b[1]), a[2] + b[2])
 (* a^n by repeated squaring.  The intermediate powers are bound by set comprehension over singletons: TLC does not
-   reliably cache LET-bound or argument expressions (never under -coverage), and a twice-used square would make the
-   recursion exponential. *)
+   reliably cache LET-bound or argument expressions, and a twice-used square would make the recursion exponential. *)
 RECURSIVE BfPowS(_, _)
 BfPowS(a, n) == IF n = 0 THEN {<<One, 0>>} ELSE IF n = 1 THEN {a}
                 ELSE IF n % 2 = 0 THEN {BfMul(h, h) : h \in BfPowS(a, n \div 2)}
                 ELSE {BfMul(h2, a) : h2 \in {BfMul(h, h) : h \in BfPowS(a, n \div 2)}}
 BfPow(a, n) == CHOOSE v \in BfPowS(a, n) : TRUE
+BfTop(a) == Len(a[1]) + a[2]                      \* a < 8192^BfTop(a)
 BfCmp(a, b) ==
   IF a[1] = <<>> THEN (IF b[1] = <<>> THEN 0 ELSE -1)
   ELSE IF b[1] = <<>> THEN 1
-  ELSE LET ta == Len(a[1]) + a[2]  tb == Len(b[1]) + b[2]
-       IN IF ta > tb THEN 1 ELSE IF ta < tb THEN -1
-          ELSE LET q == IF a[2] <= b[2] THEN a[2] ELSE b[2]
-               IN Cmp(ShiftLimbs(a[1], a[2] - q), ShiftLimbs(b[1], b[2] - q))
+  ELSE IF BfTop(a) > BfTop(b) THEN 1 ELSE IF BfTop(a) < BfTop(b) THEN -1
+  ELSE LET q == IF a[2] <= b[2] THEN a[2] ELSE b[2]
+       IN Cmp(ShiftLimbs(a[1], a[2] - q), ShiftLimbs(b[1], b[2] - q))
+(* |a - b|; when the magnitudes differ by more than two limbs the larger one (off by < 2^-13 relative: only used
+   where such a difference is far outside every tolerance) *)
+BfAbsDiff(a, b) ==
+  IF a[1] = <<>> THEN b ELSE IF b[1] = <<>> THEN a
+  ELSE IF BfTop(a) > BfTop(b) + 2 THEN a ELSE IF BfTop(b) > BfTop(a) + 2 THEN b
+  ELSE LET q == IF a[2] <= b[2] THEN a[2] ELSE b[2]
+           x == ShiftLimbs(a[1], a[2] - q)  y == ShiftLimbs(b[1], b[2] - q)
+       IN BfTrunc(IF Le(x, y) THEN Sub(y, x) ELSE Sub(x, y), q)
 (* a < b for certain, when a and b are lower bounds whose true values exceed them by at most 2^-68 relative
    (a power a^n computed by BfPow is low by less than n * 2^-78, a product of two such by the sum; n <= 563 + 256):
    an inexact value has PL limbs (>= 79 bits), so its Shr by 60 is > 2^-68 of it; an exact one needs no slack *)
 SureBits == 60
 SureLt(a, b) == BfCmp(<<Add(a[1], Shr(a[1], SureBits)), a[2]>>, b) < 0
+SureCmp(L, R) == IF SureLt(R, L) THEN 1 ELSE IF SureLt(L, R) THEN -1 ELSE 0
 
 -----------------------------------------------------------------------------
-(* non-negative rationals <<n, d>>, n and d BigNats, d # 0 *)
+(* non-negative rationals <<n, d>>, n and d BigNats, d # 0: the published constants *)
 Rat(n, d) == <<FromNat(n), FromNat(d)>>                    \* ordinary naturals
 RatZero == <<Zero, One>>
-RatOfDy(d) == IF d[1] = 0 THEN RatZero
-              ELSE IF d[2] >= 0 THEN <<ShiftLimbs(d[3], d[2]), One>>
-              ELSE <<d[3], ShiftLimbs(One, -d[2])>>        \* |d|
-RatAdd(a, b) == <<Add(Mul(a[1], b[2]), Mul(b[1], a[2])), Mul(a[2], b[2])>>
 RatMul(a, b) == <<Mul(a[1], b[1]), Mul(a[2], b[2])>>
 RatDiv(a, b) == <<Mul(a[1], b[2]), Mul(a[2], b[1])>>        \* b # 0
 RatCmp(a, b) == Cmp(Mul(a[1], b[2]), Mul(b[1], a[2]))
-(* max(a - b, 0) *)
-RatSub0(a, b) == LET x == Mul(a[1], b[2])  y == Mul(b[1], a[2])
-                 IN IF Le(x, y) THEN RatZero ELSE <<Sub(x, y), Mul(a[2], b[2])>>
-RatAbsDiff(a, b) == LET x == Mul(a[1], b[2])  y == Mul(b[1], a[2])
-                    IN <<IF Le(x, y) THEN Sub(y, x) ELSE Sub(x, y), Mul(a[2], b[2])>>
-(* a * 2^-k *)
-RatShr(a, k) == <<a[1], Shl(a[2], k)>>
-RatPow2Neg(k) == <<One, Shl(One, k)>>
+(* a * (1 + 2^-k), a * (1 - 2^-k) *)
+RatUp(a, k) == <<Add(Shl(a[1], k), a[1]), Shl(a[2], k)>>
+RatDown(a, k) == <<Sub(Shl(a[1], k), a[1]), Shl(a[2], k)>>
+
+(* scaled rationals <<n, d, q>> = (n / d) * 8192^q: the encoded value Y of an event (a Dy: d = 1; a code k / max:
+   q = 0).  Powers of 8192 stay in the exponent so that TLC never multiplies limbs that are zero. *)
+DyOfNat(M, q) == IF M = <<>> THEN DyZero ELSE <<1, q, M>>    \* M * 8192^q as a Dy
+SROfDy(y) == <<y[3], One, IF y[1] = 0 THEN 0 ELSE y[2]>>
+SROfRat(r) == <<r[1], r[2], 0>>
+SRBf(s) == BfTrunc(s[1], s[3])                              \* the numerator part n * 8192^q as a Bf
+(* s + r for a plain rational r *)
+SRAddRat(s, r) ==
+  IF r[1] = <<>> THEN s
+  ELSE IF s[3] >= 0 THEN <<Add(Mul(ShiftLimbs(s[1], s[3]), r[2]), Mul(r[1], s[2])), Mul(s[2], r[2]), 0>>
+  ELSE <<Add(Mul(s[1], r[2]), ShiftLimbs(Mul(r[1], s[2]), -s[3])), Mul(s[2], r[2]), s[3]>>
+SRDivRat(s, r) == <<Mul(s[1], r[2]), Mul(s[2], r[1]), s[3]>>
+(* sign of s - r, exactly *)
+SRCmpRat(s, r) ==
+  IF s[3] >= 0 THEN Cmp(Mul(ShiftLimbs(s[1], s[3]), r[2]), Mul(r[1], s[2]))
+  ELSE Cmp(Mul(s[1], r[2]), ShiftLimbs(Mul(r[1], s[2]), -s[3]))
 
 -----------------------------------------------------------------------------
 (* the curves *)
@@ -113,71 +132,66 @@ P3Par == [lin |-> FALSE, slope |-> Rat(1, 1), knee |-> RatZero, a |-> RatZero, b
 ProPhotoPar == [lin |-> TRUE, slope |-> Rat(16, 1), knee |-> Rat(1, 32), a |-> RatZero, b |-> Rat(1, 1), p |-> 9, q |-> 5]
 
 Curves == {"srgb", "rec_oetf", "adobe", "p3", "prophoto", "linear"}
-(* the admissible published parameter sets of a curve (sRGB: rounded or continuous; Rec: either constant set) *)
-Pars(curve) == CASE curve = "srgb" -> {SrgbPar, SrgbParC}
-                 [] curve = "rec_oetf" -> {RecParA, RecParB}
-                 [] curve = "adobe" -> {AdobePar}
-                 [] curve = "p3" -> {P3Par}
-                 [] curve = "prophoto" -> {ProPhotoPar}
-                 [] OTHER -> {}
-
-(* sign of g(Y) - x on one branch: 1 / -1 for certain, 0 undecided (or equal).  Y a rational, x a Dy >= 0
-   (its magnitude <<M, q>> is a Bf as it stands).
-   (The intermediate values are bound by set comprehension over singletons, not by LET: TLC re-evaluates or
-   re-validates LET-bound and argument expressions at every use, which multiplies the cost of the powers.) *)
-SureCmp(L, R) == IF SureLt(R, L) THEN 1 ELSE IF SureLt(L, R) THEN -1 ELSE 0
-GCmp(par, br, Y, x) ==
-  IF br = "lin" THEN RatCmp(RatDiv(Y, par.slope), RatOfDy(x))                \* exact
-  ELSE CHOOSE r \in {SureCmp(lr[1], lr[2]) :                                  \* U^p against x^q, cross-multiplied
-                     lr \in {<<BfPow(BfNat(U[1]), par.p), BfMul(BfPow(BfTrunc(x[3], x[2]), par.q), BfPow(BfNat(U[2]), par.p))>> :
-                             U \in {RatDiv(RatAdd(Y, par.a), par.b)}}} : TRUE
+(* the admissible published parameter sets of a curve, tried in this order (sRGB: rounded or continuous; Rec: exact
+   or three-digit constants) *)
+Pars(curve) == CASE curve = "srgb" -> <<SrgbPar, SrgbParC>>
+                 [] curve = "rec_oetf" -> <<RecParB, RecParA>>
+                 [] curve = "adobe" -> <<AdobePar>>
+                 [] curve = "p3" -> <<P3Par>>
+                 [] curve = "prophoto" -> <<ProPhotoPar>>
+                 [] OTHER -> <<>>
+ParSet(curve) == {Pars(curve)[i] : i \in DOMAIN Pars(curve)}
 
 (* TOLERANCE KneeBandBits: within kn * (1 +- 2^-12) of the join EITHER branch is accepted.  The two published knees of
    sRGB (0.04045 and 12.92 * 0.0031308) differ by 1.6e-6 relative and a constant rounded to f32 by 6e-8; the branches
-   differ by < 2e-8 (sRGB), 0 (ProPhoto), < 1e-9 (Rec B), ~4e-6 (Rec A, the three-digit set) inside the band. *)
+   differ by < 3e-8 (sRGB), 0 (ProPhoto), < 1e-14 (Rec exact), ~4e-6 (Rec, the three-digit set) inside the band. *)
 KneeBandBits == 12
 Branches(par, Y) ==
   IF ~par.lin THEN {"pow"}
-  ELSE LET w == RatShr(par.knee, KneeBandBits)
-       IN (IF RatCmp(Y, RatAdd(par.knee, w)) <= 0 THEN {"lin"} ELSE {})
-          \cup (IF RatCmp(Y, RatSub0(par.knee, w)) >= 0 THEN {"pow"} ELSE {})
+  ELSE (IF SRCmpRat(Y, RatUp(par.knee, KneeBandBits)) <= 0 THEN {"lin"} ELSE {})
+       \cup (IF SRCmpRat(Y, RatDown(par.knee, KneeBandBits)) >= 0 THEN {"pow"} ELSE {})
+
+(* sign of g(Y) - x on one branch: 1 / -1 for certain, 0 undecided (or equal).  Y a scaled rational, x a Dy >= 0.
+   lin: n 8192^q sd against d sn x (Y / slope against x), exactly.  pow: U^p against x^q, U = (Y + a) / b, cross-multiplied; the intermediate
+   values are bound by set comprehension over singletons (see BfPowS). *)
+GCmp(par, br, Y, x) ==
+  IF br = "lin" THEN DyCmp(DyOfNat(Mul(Y[1], par.slope[2]), Y[3]), DyMul(x, DyOfNat(Mul(Y[2], par.slope[1]), 0)))
+  ELSE CHOOSE r \in {SureCmp(BfPow(BfTrunc(U[1], U[3]), par.p), BfMul(BfPow(BfOfDy(x), par.q), BfPow(BfNat(U[2]), par.p))) :
+                     U \in {SRDivRat(SRAddRat(Y, par.a), par.b)}} : TRUE
 
 (* the outcomes of comparing g(Y) with x, one per admissible branch *)
 CmpSet(par, Y, x) == {GCmp(par, br, Y, x) : br \in Branches(par, Y)}
-(* x < g(Y) for certain on every admissible branch / x > g(Y) likewise *)
-XBelow(par, Y, x) == CmpSet(par, Y, x) = {1}
-XAbove(par, Y, x) == CmpSet(par, Y, x) = {-1}
-
-(* g(Ylo) <= x <= g(Yhi) is not refuted *)
-Between(par, x, Ylo, Yhi) == ~XBelow(par, Ylo, x) /\ ~XAbove(par, Yhi, x)
-OnCurve(curve, x, Ylo, Yhi) ==
-  IF curve = "linear" THEN RatCmp(Ylo, RatOfDy(x)) <= 0 /\ RatCmp(RatOfDy(x), Yhi) <= 0
-  ELSE \E par \in Pars(curve) : Between(par, x, Ylo, Yhi)
 
 -----------------------------------------------------------------------------
 (* The integer codes.  "Error below 0.6 of one code": |max * f(x) - k| < 0.6, i.e.
-   g((k - 0.6)/max) < x < g((k + 0.6)/max); x the exact value of the f32 (a Dy >= 0) *)
-Lo06(max, k) == IF k = 0 THEN RatZero ELSE Rat(10 * k - 6, 10 * max)
-Hi06(max, k) == Rat(10 * k + 6, 10 * max)
-Within06(curve, max, k, x) == OnCurve(curve, x, Lo06(max, k), Hi06(max, k))
+   g((k - 0.6)/max) < x < g((k + 0.6)/max); x the exact value of the f32 (a Dy >= 0).  Three-valued: only a
+   comparison that certainly fails refutes. *)
+Lo06(max, k) == IF k = 0 THEN SROfRat(RatZero) ELSE SROfRat(Rat(10 * k - 6, 10 * max))
+Hi06(max, k) == SROfRat(Rat(10 * k + 6, 10 * max))
+Between(par, x, Ylo, Yhi) == CmpSet(par, Ylo, x) # {1} /\ CmpSet(par, Yhi, x) # {-1}
+Within06(curve, max, k, x) == \E par \in ParSet(curve) : Between(par, x, Lo06(max, k), Hi06(max, k))
 (* the same with 0.5: exact rounding of the curve *)
 Within05(curve, max, k, x) ==
-  OnCurve(curve, x, IF k = 0 THEN RatZero ELSE Rat(2 * k - 1, 2 * max), Rat(2 * k + 1, 2 * max))
+  \E par \in ParSet(curve) : Between(par, x, IF k = 0 THEN SROfRat(RatZero) ELSE SROfRat(Rat(2 * k - 1, 2 * max)), SROfRat(Rat(2 * k + 1, 2 * max)))
 
 (* A whole run [xf, xl] of inputs with code k: f is increasing, so the lower bound needs checking at the first input
    only and the upper bound at the last.  One pair of outcome sets per admissible parameter set; code 0 has no lower
    bound to check (f >= 0). *)
 RunVerdicts(curve, max, k, xf, xl) ==
-  {<<IF k = 0 THEN {} ELSE CmpSet(par, Lo06(max, k), xf), CmpSet(par, Hi06(max, k), xl)>> : par \in Pars(curve)}
+  {<<IF k = 0 THEN {} ELSE CmpSet(par, Lo06(max, k), xf), CmpSet(par, Hi06(max, k), xl)>> : par \in ParSet(curve)}
 RunWithin06(vs) == \E v \in vs : v[1] # {1} /\ v[2] # {-1}
 RunUndecided(vs) == \E v \in vs : 0 \in v[1] \/ 0 \in v[2]
 (* The boundary between the runs of k - 1 and k (k >= 1): xb the last input of k - 1, xa the first input of k:
    upper bound of k - 1 at xb, lower bound of k at xa.  All boundaries plus the two ends cover every run. *)
 BoundaryVerdicts(curve, max, k, xb, xa) ==
-  {<<CmpSet(par, Lo06(max, k), xa), CmpSet(par, Hi06(max, k - 1), xb)>> : par \in Pars(curve)}
+  {<<CmpSet(par, Lo06(max, k), xa), CmpSet(par, Hi06(max, k - 1), xb)>> : par \in ParSet(curve)}
 
 -----------------------------------------------------------------------------
-(* Floating point results: tolerances are expressed on the ENCODED value Y: tol(Y) = Y * 2^-RelBits + 2^-AbsBits.
+(* Floating point results.  The tolerance is expressed on the ENCODED value Y: tol(Y) = Y * 2^-RelBits + 2^-AbsBits,
+   and carried to the p-th power to first order: U = (Y + a) / b changes by tol / (Y + a) relative, U^p by
+   kappa = p * tol / (Y + a).  The point (x, Y) is accepted on the power branch when |U^p - x^q| <= kappa * U^p and on
+   the linear branch when |Y - slope * x| <= tol.  (The powers carry a relative error below 2^-68; the smallest kappa
+   is 2^-41: the verdict does not depend on it.)
 
    TOLERANCE RelBits.  from_linear is powf (< 1 ulp), one fused multiply-subtract whose cancellation at the knee
    amplifies by (Y + a)/Y <= 2.4, and constants rounded to the component type (an exponent error e changes the result
@@ -192,31 +206,37 @@ BoundaryVerdicts(curve, max, k, xb, xa) ==
 Prec(t) == IF t = "f32" THEN 24 ELSE 53
 RelBits(curve, t) == IF t = "f32" THEN 17 ELSE IF curve = "rec_oetf" THEN 41 ELSE 44
 AbsBits(t) == IF t = "f32" THEN 40 ELSE 70        \* floor of the tolerance for results near zero
-(* the bracket <<Ylo, Yhi>> = Y -+ (Y * 2^-RelBits + 2^-AbsBits) of Y = n/d, built with shifts only and on one
-   denominator (a sum of rationals would multiply the denominators, and TLC pays for every limb) *)
-Bracket(curve, t, Y) ==
-  LET ab == AbsBits(t)  rb == RelBits(curve, t)
-      n2 == Shl(Y[1], ab)  d2 == Shl(Y[2], ab)
-      tl == Add(Shl(Y[1], ab - rb), Y[2])
-  IN <<<<IF Le(n2, tl) THEN Zero ELSE Sub(n2, tl), d2>>, <<Add(n2, tl), d2>>>>
-OnCurveTol(curve, t, x, Y) == \A b \in {Bracket(curve, t, Y)} : OnCurve(curve, x, b[1], b[2])
+(* d * tol(Y) for Y = (n / d) * 8192^q, as a Dy: n * 8192^q * 2^-RelBits + d * 2^-AbsBits *)
+TolNum(curve, t, Y) == DyAdd(DyMul(DyOfNat(Y[1], Y[3]), DyPow2(-RelBits(curve, t))), DyMul(DyOfNat(Y[2], 0), DyPow2(-AbsBits(t))))
+PowNear(par, curve, t, Y, x) ==
+  \A W \in {SRAddRat(Y, par.a)} : \A L \in {BfPow(BfTrunc(Mul(W[1], par.b[2]), W[3]), par.p)} :
+     BfCmp(BfMul(BfMul(BfAbsDiff(L, BfMul(BfPow(BfOfDy(x), par.q), BfPow(BfNat(Mul(W[2], par.b[1])), par.p))), SRBf(W)), BfNat(Y[2])),
+           BfMul(BfMul(L, BfOfDy(TolNum(curve, t, Y))), BfNat(MulSmall(W[2], par.p)))) <= 0
+LinNear(par, curve, t, Y, x) ==      \* |n 8192^q sd - d sn x| <= sd * (d tol)
+  DyLe(DyAbs(DySub(DyOfNat(Mul(Y[1], par.slope[2]), Y[3]), DyMul(x, DyOfNat(Mul(Y[2], par.slope[1]), 0)))),
+       DyMul(TolNum(curve, t, Y), DyOfNat(par.slope[2], 0)))
+PointNear(par, curve, t, Y, x) ==
+  \E br \in Branches(par, Y) : IF br = "lin" THEN LinNear(par, curve, t, Y, x) ELSE PowNear(par, curve, t, Y, x)
+OnCurveTol(curve, t, x, Y) ==
+  IF curve = "linear" THEN LinNear([slope |-> Rat(1, 1)], curve, t, Y, x)
+  ELSE \E i \in DOMAIN Pars(curve) : PointNear(Pars(curve)[i], curve, t, Y, x)
 
 (* (x, y) is a point of the curve: x linear, y encoded, both exact dyadics >= 0 *)
-CurveOK(curve, t, x, y) == OnCurveTol(curve, t, x, RatOfDy(y))
+CurveOK(curve, t, x, y) == OnCurveTol(curve, t, x, SROfDy(y))
 (* the decoder's value for code k *)
-DecodeOK(curve, t, max, k, x) == OnCurveTol(curve, t, x, Rat(k, max))
+DecodeOK(curve, t, max, k, x) == OnCurveTol(curve, t, x, SROfRat(Rat(k, max)))
 
 (* the joins, in the units of the argument: dir "enc" takes linear x (knee / slope), "dec" takes encoded y *)
 KneeIn(par, dir) == IF dir = "dec" THEN par.knee ELSE RatDiv(par.knee, par.slope)
 NearKnee(curve, dir, v) ==
-  \E par \in Pars(curve) : par.lin /\ LET kn == KneeIn(par, dir)
-                                      IN RatCmp(RatAbsDiff(RatOfDy(v), kn), RatShr(kn, KneeBandBits)) <= 0
+  \E par \in ParSet(curve) : par.lin /\ SRCmpRat(SROfDy(v), RatUp(KneeIn(par, dir), KneeBandBits)) <= 0
+                                      /\ SRCmpRat(SROfDy(v), RatDown(KneeIn(par, dir), KneeBandBits)) >= 0
 StraddlesKnee(curve, dir, v0, v1) ==
-  \E par \in Pars(curve) : par.lin /\ LET kn == KneeIn(par, dir)  w == RatShr(kn, KneeBandBits)
-                                      IN RatCmp(RatOfDy(v0), RatAdd(kn, w)) <= 0 /\ RatCmp(RatOfDy(v1), RatSub0(kn, w)) >= 0
+  \E par \in ParSet(curve) : par.lin /\ SRCmpRat(SROfDy(v0), RatUp(KneeIn(par, dir), KneeBandBits)) <= 0
+                                      /\ SRCmpRat(SROfDy(v1), RatDown(KneeIn(par, dir), KneeBandBits)) >= 0
 
-(* "the step of less than 1e-6 that the published constants themselves leave where the segments meet" *)
-KneeStepOK(d) == RatCmp(RatMul(d, Rat(1000000, 1)), Rat(1, 1)) < 0
+(* "the step of less than 1e-6 that the published constants themselves leave where the segments meet": d a Dy >= 0 *)
+KneeStepOK(d) == DyLt(DyMulInt(d, 1000000), DyFromInt(1))
 
 (* TOLERANCE RoundTripBits: dec(enc(v)) and enc(dec(v)) against v, relative to v.  Two curve evaluations, the second
    amplifying the error of the first by the local exponent (<= 2.6, or its inverse): principled ~ 16 u; calibrated
@@ -224,16 +244,15 @@ KneeStepOK(d) == RatCmp(RatMul(d, Rat(1000000, 1)), Rat(1, 1)) < 0
    At the join the published step is allowed. *)
 RoundTripBits(t) == Prec(t) - 7
 RoundTripOK(curve, t, dir, v, back) ==
-  LET V == RatOfDy(v)  d == RatAbsDiff(V, RatOfDy(back))
-  IN \/ RatCmp(d, RatAdd(RatShr(V, RoundTripBits(t)), RatPow2Neg(AbsBits(t)))) <= 0
-     \/ NearKnee(curve, dir, v) /\ KneeStepOK(d)
+  \A d \in {DyAbs(DySub(v, back))} :
+     \/ DyLe(d, DyAdd(DyMul(DyAbs(v), DyPow2(-RoundTripBits(t))), DyPow2(-AbsBits(t))))
+     \/ KneeStepOK(d) /\ NearKnee(curve, dir, v)
 
 (* TOLERANCE MonoUlps: monotone, except (a) at the join by less than 1e-6, (b) by rounding: the library power function
    is accurate to < 1 ulp but not proven monotone, so a dip of at most 2 ulp of the result is rounding, not the curve.
    Calibrated: the largest dip observed away from the join is reported in the evidence (0 on the pinned tree). *)
-MonoSlack(t, w0) == RatShr(RatOfDy(w0), Prec(t) - 2)
 MonotoneOK(curve, t, dir, v0, w0, v1, w1) ==
   \/ DyLe(w0, w1)
-  \/ RatCmp(RatAbsDiff(RatOfDy(w0), RatOfDy(w1)), MonoSlack(t, w0)) <= 0
-  \/ StraddlesKnee(curve, dir, v0, v1) /\ KneeStepOK(RatAbsDiff(RatOfDy(w0), RatOfDy(w1)))
+  \/ DyLe(DySub(w0, w1), DyMul(DyAbs(w0), DyPow2(-(Prec(t) - 2))))
+  \/ KneeStepOK(DySub(w0, w1)) /\ StraddlesKnee(curve, dir, v0, v1)
 =============================================================================
